@@ -138,8 +138,13 @@ def _damage(rng, text, k):
         m = rng.choice((900, 1023, 1024, 1025, 2000, 5000))
         t = text + '\nint zll = ' + '1 + ' * (m // 4) + '1;\n'
     elif kind == 'longident':
-        m = rng.choice((100, 255, 256, 1200))
-        t = text + '\nint z' + 'i' * m + ' = 1;\n'
+        # a very long identifier in every role a name can have: the compiler quotes names in its messages, which it builds in
+        # fixed buffers
+        m = rng.choice((100, 230, 236, 255, 256, 1200)); nm = 'z' + 'i' * m
+        t = text + rng.choice(('\nint %s = 1;\n', '\nint zu1() { return %s; }\n', '\nint zu2() { return %s(1); }\n', '\nint %s(int a) { return a; }\nint zu3() { return %s(1, 2); }\n',
+                               '\nint zu4(int %s) { int %s; return 1; }\n', '\nint zu5() { return %s::zq(); }\n', '\n#define %s 1\n#define %s 2\n', '\nclass %s { int a; }\nint zu6() { class %s c; c = new(class %s); return c->zzz; }\n',
+                               '\nint zu7() { return this_object()->%s(); }\nint zu8() { object o; return o->a->%s; }\n', '\nint zu9() { return (: %s :); }\nint zu10() { return (: %s, 1 :); }\n',
+                               '\nvoid zu11() { %s = 5; %s += "x"; }\n', '\nint zu12(string %s) { return %s + 1; }\n#pragma strict_types\nint zu13() { return zu12(1); }\n')).replace('%s', nm)
     elif kind == 'longstr':
         m = rng.choice((500, 1000, 4000, 70000))
         t = text + '\nstring zls = "' + 'x' * m + '";\n'
